@@ -434,6 +434,85 @@ func (s *connScn) observe() string {
 		lastMutexBlocked, r)
 }
 
+// slowClosingCall: while this direct call is being serialised (after QueueRPC's liveness check,
+// before it is registered) another goroutine starts closing the connection and gets as far as
+// the connection's own Close, which takes its time.
+type slowClosingCall struct {
+	*hrpc.Get
+	s *connScn
+}
+
+func (u slowClosingCall) ToProto() proto.Message {
+	go u.s.rc.Close()
+	for i := 0; i < 20000; i++ {
+		for _, g := range u.s.v.Pending() {
+			if g.kind == "close" {
+				return u.Get.ToProto()
+			}
+		}
+		time.Sleep(50 * time.Microsecond)
+	}
+	return u.Get.ToProto()
+}
+
+// slowCloseScenario (C03): the failure transition is in progress — `done` is closed and the
+// connection's Close has not returned yet — when a call that had already passed the liveness check
+// is registered and written (the write and the arming succeed: the socket is not closed yet).
+// When Close finally returns, that call must still be completed.
+func slowCloseScenario() string {
+	s := newConnScn(NewRNG(1, "slowclose"), 1)
+	if s.broken != "" {
+		return "c03 script slow-close broken:" + strings.ReplaceAll(s.broken, " ", "_")
+	}
+	s.v.mu.Lock()
+	s.v.gateClose = true
+	s.v.mu.Unlock()
+	c := s.newCall(true, false)
+	c.call = slowClosingCall{c.call.(*hrpc.Get), s}
+	go s.rc.QueueRPC(c.call)
+	release := func(kind string) bool {
+		for i := 0; i < 400; i++ {
+			settle()
+			for _, g := range s.v.Pending() {
+				if g.kind == kind {
+					s.v.take(g)
+					g.ch <- gateRes{}
+					return true
+				}
+			}
+			time.Sleep(100 * time.Microsecond)
+		}
+		return false
+	}
+	wrote := 0
+	for release("write") {
+		wrote++
+		settle()
+		more := false
+		for _, g := range s.v.Pending() {
+			more = more || g.kind == "write"
+		}
+		if !more {
+			break
+		}
+	}
+	armed := release("deadline")
+	closed := release("close")
+	settle()
+	// whatever else is parked (reads end by themselves when the connection closes)
+	for _, g := range s.v.Pending() {
+		s.v.take(g)
+		g.ch <- gateRes{err: errVReset}
+	}
+	settle()
+	s.observe()
+	cls := "none"
+	if len(c.results) > 0 {
+		cls = strings.Join(c.results, "+")
+	}
+	return fmt.Sprintf("c03 script slow-close wrote=%d armed=%v closed=%v results=%d class=%s", wrote, armed, closed, len(c.results), cls)
+}
+
 func (s *connScn) log(act string) {
 	if !settle() {
 		s.broken = "no quiescence after " + act
@@ -960,7 +1039,13 @@ func connProp(model, profile string) propFn {
 }
 
 func init() {
-	props["C03"] = connProp("c03", "fail")
+	c03conn := connProp("c03", "fail")
+	props["C03"] = func(tier string, seed uint64, out *Out) {
+		c03conn(tier, seed, out)
+		if os.Getenv("VERIF_SHARD") == "" {
+			out.Line("%s", slowCloseScenario())
+		}
+	}
 	props["C18"] = connProp("c18", "idle")
 	c02conn := connProp("c02", "corr")
 	props["C02"] = func(tier string, seed uint64, out *Out) {
